@@ -127,6 +127,17 @@ CHECKS = {
   ref="DESIGN.md §3 C03",
   note=NOTE_COMMON + " A symmetric error in the library (same wrong offset/constant in writer and reader) differs from the reference encoding and is reported with the packet as replay.",
   technique="independent reference codec in Coq (round-trip proved) + Coq obligations over regenerated constants + differential correspondence"),
+ "C04": dict(
+  text="Coq theorems, Closed under the global context, about the reference decoder (a total function on every byte list): whatever it accepts "
+       "satisfies the builders' structural rules and re-parses to itself; an accepted Variable Byte Integer / length-prefixed field IS the "
+       "encoding of its value (non-minimal integers are never accepted), for every byte list; no primitive decoder consumes more than it was "
+       "given. PARTIAL (C04_partial): 'no parser of the library panics, over-reads or accepts an inconsistent packet' is decided on the "
+       "implementation: every parser under catch_unwind on exhaustive short bodies, structured mutations of valid encodings of all 29 kinds and "
+       "random bytes - consumed <= given, size() = length of the re-serialisation, re-parse equal, builder rules on the accessor values "
+       "(monitor) - and by the correspondence with the reference decoder.",
+  ref="DESIGN.md §3 C04",
+  note=NOTE_COMMON + " Self-consistent leniencies of the library (reserved flag bits, trailing bytes, ...) are modelled as they are and listed in DESIGN.md.",
+  technique="Coq proofs about a total reference decoder (canonicity of accepted integers/fields) + catch_unwind monitor on exhaustive and mutated inputs + differential correspondence"),
  "C12": dict(
   text="Coq theorems, Closed under the global context, for every state and every M: the vacancy getter is M minus the counter saturating at "
        "zero (never wraps or panics); a QoS>0 PUBLISH arriving when the peer already has the announced maximum outstanding is answered "
